@@ -97,16 +97,22 @@ def work(shard, tier):
         allnums = C.corpus(name)
         # the first two numbers (document order) are swept exhaustively and deterministically, so the
         # set of signatures found on a given tree does not depend on the seed; the rest is seed-sampled
-        extra = [v for v in allnums[2:]]
+        # deterministic part: first number of every (length, first character kind/value) class in document order
+        classes = {}
+        for v in allnums:
+            classes.setdefault((len(v), v[:1] if v[:1].isdigit() else 'L' if v[:1].isalpha() else '?'), v)
+        det = list(classes.values())[:8]
+        extra = [v for v in allnums if v not in det]
         rng.shuffle(extra)
-        nums = allnums[:2] + extra[:2 if tier == 'quick' else 120]
+        nums = det + extra[:2 if tier == 'quick' else 120]
+        ndet = len(det)
         for vi, v in enumerate(nums):
             n = len(v)
             dpos = [i for i, c in enumerate(v) if c in '0123456789']
             lpos = [i for i, c in enumerate(v) if c.isalpha() and c.isascii()]
             for p in dpos:
                 blocks = byb.get(int(v[p]), {})
-                if vi < 2 or (tier == 'thorough' and vi < 4):
+                if vi < ndet or (tier == 'thorough' and vi < ndet + 2):
                     chars = [(b, c) for b in sorted(blocks) for c in blocks[b]]
                 elif tier == 'quick':
                     bl = rng.sample(sorted(blocks), min(len(blocks), 5))
